@@ -25,7 +25,8 @@ func init() {
 		}
 		plens := []int{1, 2, 3, 4, 5, 6, 7, 8, 9, 10, 11, 12}
 		sids := []uint32{0, 1, 1<<31 - 1, 1 << 31, 1<<32 - 1}
-		names := []string{"example.com", strings.Repeat("a", 50) + ".example.org", "random"}
+		// (the IP literals: utls then sends no server_name extension at all, RFC 6066)
+		names := []string{"example.com", strings.Repeat("a", 50) + ".example.org", "random", "203.0.113.7", "2001:db8::1"}
 		offsets := []int{-179, -1, 0, 1, 179}
 		var cases []hsCase
 		for _, m := range methods {
@@ -134,7 +135,8 @@ func init() {
 		}
 		// CDN edges that re-frame the origin's replies, or forward the request with lower-case field names
 		jobs = append(jobs, vx.Job{Scenario: "hs.agree", Params: vx.P("transport", "cdn", "browser", "chrome", "product", "star", "seeds", "1", "edge", "pieces"), Weight: 4},
-			vx.Job{Scenario: "hs.agree", Params: vx.P("transport", "cdn", "browser", "firefox", "product", "star", "seeds", "1", "edge", "lower"), Weight: 4})
+			vx.Job{Scenario: "hs.agree", Params: vx.P("transport", "cdn", "browser", "firefox", "product", "star", "seeds", "1", "edge", "lower"), Weight: 4},
+			vx.Job{Scenario: "hs.agree", Params: vx.P("transport", "cdn", "browser", "safari", "product", "star", "seeds", "1", "edge", "connhdr"), Weight: 4})
 		// every clock offset strictly inside the window agrees, whatever the server clock's sub-second phase
 		jobs = append(jobs, vx.Job{Scenario: "auth.window", Params: vx.P("transport", "direct"), Weight: 3}, vx.Job{Scenario: "auth.window", Params: vx.P("transport", "cdn"), Weight: 3})
 		// two handshakes at once (different users; the same session): each client can open its reply and holds
